@@ -38,12 +38,58 @@ type State struct {
 	trace   []string
 	fresh   []Term
 	dead    bool
-	callCnt map[string]int
+	callCnt map[string]int  // calls on this path (static index for callarg/callres/callseq)
+	callNum map[string]Term // symbolic number of calls so far (havoc'ed at loop heads): ncalls
 	callLog map[string]callRec
 	recDefs map[string]string
+	callSeq int
+	mapVer  Term
+}
+
+// mapGet: abstract map content, an uninterpreted function of the map reference,
+// the key and a version that changes whenever maps may have been written.
+func (st *State) mapGet(m Term, key []Term, mt *types.Map) (SVal, error) {
+	if st.mapVer.Sort == nil {
+		st.mapVer = IntLit(0)
+	}
+	et := mt.Elem()
+	cs, err := compsOf(et)
+	if err != nil {
+		return nil, err
+	}
+	args := append([]Term{st.mapVer, m}, key...)
+	ts := make([]Term, len(cs))
+	for i, c := range cs {
+		name := st.fe.uninterp("mapget."+typeKeyShort(mt.Key())+"."+typeKeyShort(et)+c.suffix, args, c.sort)
+		ts[i] = App(c.sort, name, args...)
+	}
+	v := mkVal(et, ts)
+	return v, nil
+}
+
+func (st *State) countCall(name string) {
+	st.callCnt[name]++
+	cur, ok := st.callNum[name]
+	if !ok {
+		cur = IntLit(0)
+	}
+	st.callNum[name] = Add(cur, IntLit(1))
+}
+
+func (st *State) numCalls(name string) Term {
+	if t, ok := st.callNum[name]; ok {
+		return t
+	}
+	return IntLit(0)
+}
+
+func (st *State) bumpMaps() {
+	st.mapVer = st.freshConst("mapver", SInt)
 }
 
 type callRec struct {
+	pre  *State // state just before the call (argument contents are read there)
+	seq  int
 	args []SVal
 	argT []types.Type
 	res  SVal
@@ -75,6 +121,10 @@ func (st *State) clone() *State {
 	n.callCnt = make(map[string]int, len(st.callCnt))
 	for k, v := range st.callCnt {
 		n.callCnt[k] = v
+	}
+	n.callNum = make(map[string]Term, len(st.callNum))
+	for k, v := range st.callNum {
+		n.callNum[k] = v
 	}
 	n.callLog = make(map[string]callRec, len(st.callLog))
 	for k, v := range st.callLog {
